@@ -32,6 +32,9 @@ CurMonotone == sc.cur >= 0
 LibLen(r, pos) == IF \E i \in 1..Len(r.orc) : r.orc[i][1] = pos
                   THEN r.orc[CHOOSE i \in 1..Len(r.orc) : r.orc[i][1] = pos][2] ELSE -2
 
+RxLen(r, pos) == IF \E i \in 1..Len(r.rx) : r.rx[i][1] = pos
+                 THEN r.rx[CHOOSE i \in 1..Len(r.rx) : r.rx[i][1] = pos][2] ELSE -1
+
 GateProblems(r) ==
   IF r.rpanic THEN {"scanner panicked"}
   ELSE IF r.rerr >= 0 THEN {}          \* C14 speaks about inputs the scanner reads without error
@@ -41,6 +44,9 @@ GateProblems(r) ==
              THEN {"a byte outside all lexemes is not trivia"} ELSE {})
        \cup (IF \E i \in 1..Len(r.real) : r.real[i][1] \in {3, 8} /\ LibLen(r, r.real[i][2]) # r.real[i][3] - r.real[i][2] + 1
              THEN {"body lexeme is not exactly one value of the schema library"} ELSE {})
+       \cup (IF \E i \in 1..Len(r.real) : r.real[i][1] = 5 /\ RxLen(r, r.real[i][2]) >= 0
+                                            /\ RxLen(r, r.real[i][2]) # r.real[i][3] - r.real[i][2] + 1
+             THEN {"regex body lexeme is not the expression the regex library delimits"} ELSE {})
 
 Conf(r) ==
   LET m == sc IN
